@@ -112,7 +112,7 @@ class AstNode(object):
         * namespace member
         * enumerator
         """
-        raise NotImplemented  # virtual function
+        return None  # not a scope (typedef, enum, ...): it has no members
 
     def unqualified_lookup(self, name):
         """Look for symbols within a scope.
